@@ -884,3 +884,44 @@ pub fn derive_path(m: &M, steps: &[(u16, u16, u16)], extra: &str) -> Vec<crate::
     }
     out
 }
+
+
+/// a pair of adjacent children of some container of `m` (what sorting or de-duplicating a
+/// list compares with each other); `m` itself twice when there is none
+pub fn sibling_pair(m: &M, sel: u16) -> (M, M) {
+    fn collect<'a>(m: &'a M, out: &mut Vec<(&'a M, &'a M)>) {
+        if out.len() >= 64 {
+            return;
+        }
+        match m {
+            M::Arr(a) => {
+                for w in a.windows(2) {
+                    out.push((&w[0], &w[1]));
+                }
+                a.iter().take(64).for_each(|x| collect(x, out));
+            }
+            M::Obj(o) => {
+                let v: Vec<&M> = o.values().collect();
+                for w in v.windows(2) {
+                    out.push((w[0], w[1]));
+                }
+                v.into_iter().take(64).for_each(|x| collect(x, out));
+            }
+            _ => {}
+        }
+    }
+    let mut out = vec![];
+    collect(m, &mut out);
+    if out.is_empty() {
+        return (m.clone(), m.clone());
+    }
+    // containers first: pairs of scalars are what every other generator produces anyway
+    let (cont, rest): (Vec<_>, Vec<_>) = out.into_iter().partition(|(x, y)| x.is_container() && y.is_container());
+    let pool = if !cont.is_empty() && sel % 4 != 0 { cont } else if !rest.is_empty() { rest } else { cont };
+    let (x, y) = pool[pick(sel / 4, pool.len())];
+    if sel & 0x8000 != 0 {
+        (y.clone(), x.clone())
+    } else {
+        (x.clone(), y.clone())
+    }
+}
